@@ -571,6 +571,26 @@ def stage_a(ctx):
             ctx.add_tlc('NfdReg %s deviation %s -> counterexample' % (front, what), r)
 
 
+def stage_ind(ctx):
+    """Unbounded part: Apalache proves an inductive invariant of the counting abstraction NfdRegInd for any number of
+    concurrent calls, commands and clock values (semaphore discipline => one command outstanding; guard => every
+    command's timestamp above the previous one); TLC checks that NfdReg (correct design) refines NfdRegInd."""
+    from harness import ind
+    for front in ('v2', 'legacy'):
+        rp = os.path.join(tlc.BUILD, 'NfdRegRef_%s.cfg' % front)
+        tlc.write_cfg(rp, constants=consts(front, 3, ['a'], 1, 2, 3, ['r200', 'r400', 'silence'], [], stall=(front == 'v2')),
+                      invariants=['IndInvHolds', 'WireIncreasing'], properties=['RefinesInd'])
+        r = tlc.run('NfdRegRef', rp, workers=4, heavy=False, tag='c17r')
+        ctx.add_tlc('NfdReg (%s) refines NfdRegInd' % front, r)
+        if r.violated:
+            ctx.violation('C17/spec/NfdRegRef/%s/%s' % (front, r.violated),
+                          'TLC: %s violated (NfdReg does not refine NfdRegInd)' % r.violated, {'trace': r.errtrace})
+    ind.apalache(ctx, 'C17', 'NfdRegInd',
+                 [('InitA', 'IndInv', 0, 'Init => IndInv'), ('IndInit', 'IndInv', 1, "IndInv /\\ Next => IndInv'"),
+                  ('IndInit', 'Safety', 0, 'IndInv => OneAtATime /\\ OnePastSemaphore'),
+                  ('IndInit', 'TsIncreases', 1, "IndInv /\\ Next => every new command's timestamp is above the previous one")])
+
+
 def run(ctx):
     ctx.rule = ('A: TLC exhaustive on NfdReg (both front-ends; 3 concurrent calls x free clock; all 8 reply kinds x body; routes over '
                 '2 connections). B: transition-cover stimulus sequences of the NfdReg graphs replayed on the real front-ends, '
@@ -586,6 +606,7 @@ def run(ctx):
     t0 = time.time()
     if 'A' in ctx.stages:
         stage_a(ctx)
+        stage_ind(ctx)
         from harness import lifecheck
         lifecheck.stage_a(ctx, ctx.quick)
         ctx.note('stage A wall %.0fs' % (time.time() - t0))
